@@ -298,6 +298,16 @@ impl BitFont {
     ///
     /// This function will return an error if .
     pub fn from_bytes(font_name: impl Into<String>, data: &[u8]) -> EngineResult<Self> {
+        let font = BitFont::parse_bytes(font_name, data)?;
+        // a font is a table of small bitmaps: degenerate sizes (a file can declare any 32 bit number) are no fonts.
+        // The cell size of font 0 divides pixel sizes and multiplies screen sizes all over the engine.
+        if !(1..=64).contains(&font.size.width) || !(1..=64).contains(&font.size.height) {
+            return Err(FontError::UnsupportedSize(font.size.width, font.size.height).into());
+        }
+        Ok(font)
+    }
+
+    fn parse_bytes(font_name: impl Into<String>, data: &[u8]) -> EngineResult<Self> {
         if data.len() >= 4 {
             let magic16 = u16::from_le_bytes(data[0..2].try_into().unwrap());
             if magic16 == BitFont::PSF1_MAGIC {
@@ -552,6 +562,7 @@ pub enum FontError {
     UnsupportedVersion(u32),
     LengthMismatch(usize, usize),
     UnknownFontFormat(usize),
+    UnsupportedSize(i32, i32),
 }
 impl std::fmt::Display for FontError {
     fn fmt(&self, f: &mut std::fmt::Formatter<'_>) -> std::fmt::Result {
@@ -562,6 +573,7 @@ impl std::fmt::Display for FontError {
             FontError::LengthMismatch(actual, calculated) => {
                 write!(f, "length should be {calculated} was {actual}")
             }
+            FontError::UnsupportedSize(w, h) => write!(f, "font size {w}x{h} is not supported"),
             FontError::UnknownFontFormat(size) => {
                 let sizes = [8, 14, 16, 19];
                 let list = sizes.iter().fold(String::new(), |a, &b| {
